@@ -121,7 +121,7 @@ theorem load_serialise (E : RegexEngine) (ic : Bool) (entries : List (Str × Yam
               unfold loadDetection
               have hreload : loadEntries E ic ((condKey, Yaml.str raw) :: st.idsRaw) {} =
                   .ok { ids := st.ids, idsRaw := st.idsRaw, cond := some raw } := by
-                simp only [loadEntries, beq_self_eq_true, if_true]
+                simp only [loadEntries, beq_self_eq_true, if_true, scalarYamlText]
                 have := reload_entries E ic st.ids st.idsRaw [] [] (some raw) hcons
                 simpa using this
               simp only [hreload, htok, he]
